@@ -122,6 +122,12 @@ XCallsOf(st, op, key) ==
                  /\ y[2] \notin Rng(HFVerts(st, y[1]))
                  /\ (y[3] = 0 \/ y[4])
                  /\ TetFreeToAdd(st, Append(HFVerts(st, y[1]), y[2]))}}
+    [] op = "tet_add_cell_v_taken" ->   \* vertex form with topology check on a place that is already occupied: rejected
+         {KLF("tet_add_cell_v", Append(HFVerts(st, x[1]), x[2]), TRUE) : x \in
+             {y \in FreeHF(st) \X LiveV(st) :
+                 /\ Len(At(st.faces, Full(y[1]))) = 3
+                 /\ y[2] \notin Rng(HFVerts(st, y[1]))
+                 /\ ~TetFreeToAdd(st, Append(HFVerts(st, y[1]), y[2]))}}
     [] op = "tet_add_cell_new" ->       \* a tetrahedron on four arbitrary distinct live vertices
          {KLF("tet_add_cell_4", SortedSeq(S), FALSE) : S \in {T \in KSub(4, FirstN(LiveV(st), 6)) : TetFreeToAdd(st, SortedSeq(T))}}
          \cup {KLF("tet_add_cell_v", Rev(SortedSeq(S)), TRUE) : S \in {T \in KSub(4, FirstN(LiveV(st), 6)) : TetFreeToAdd(st, Rev(SortedSeq(T)))}}
